@@ -134,6 +134,9 @@ structure ConcSim where
       it was recorded first; the result, to be compared at the thread's own `ret` line -/
   preP : Option QOut := none
   preC : Option QOut := none
+  /-- the same for a transaction of the thread that FAILED (rolled back): its effect was already applied -/
+  preFaultP : Bool := false
+  preFaultC : Bool := false
 
 inductive ConcRes where
   | ok (s : ConcSim)
@@ -161,7 +164,7 @@ def advanceLock (sim : ConcSim) (t : Bool) : Option ConcSim :=
       | _, _ => false
     else
       match sim.s.pp, sim.s.progP.head?, sim.callsP.head? with
-      | .idle, some op, some call => !call.fault && sim.s.q.needsTx sim.cfg op
+      | .idle, some op, some _ => sim.s.q.needsTx sim.cfg op
       | .active, _, _ => true
       | _, _, _ => false
   if !atLockStep then none else
@@ -182,6 +185,58 @@ def catchUp (sim : ConcSim) (t : Bool) : ConcSim :=
       | none => s2
       | some s3 => s3
 
+/-- The effect of a producer call whose flush transaction FAILED (`err:oom`): outside the proven step relation.
+    The transaction failed before `pending.Lock` (`pp = idle`; the reserved lock must have been free: checked by
+    the caller) or AT THE COMMIT (`pp = active/pending`: out of space when the commit allocates its meta pages,
+    after `pending.Lock`): it is rolled back, pending and reserved are released, the writer state is `failFlush`
+    (Model/PQWriterFail.lean: buffer and file as they were); a failed `Next` has finished its event. -/
+def producerFault (sim : ConcSim) (call : ConcCall) : ConcSim :=
+  let S := sim.cfg.S
+  let lock' : LockSt := if sim.s.pp == .idle then sim.s.lock else { sim.s.lock with pending := false, reserved := false }
+  let o := pqOutcome call.res
+  match call.op with
+  | .next =>
+    let s1 := sim.s.q.w.nextCore S
+    { sim with s := { sim.s with q := { sim.s.q with w := failFlush o s1 }, lock := lock', pp := .idle,
+                                 a := { sim.s.a with events := sim.s.a.events ++ [sim.s.a.cur], cur := [] },
+                                 progP := sim.s.progP.tail } }
+  | _ => { sim with s := { sim.s with q := { sim.s.q with w := failFlush o sim.s.q.w }, lock := lock', pp := .idle,
+                                      progP := sim.s.progP.tail } }
+
+/-- a failed ACK (its cleanup transaction was rolled back): nothing changed, its locks are released -/
+def consumerFault (sim : ConcSim) : ConcSim :=
+  let holds := match sim.s.cp with | .active _ | .pending _ => true | _ => false
+  let lock' : LockSt := if holds then { sim.s.lock with pending := false, reserved := false } else sim.s.lock
+  { sim with s := { sim.s with progC := sim.s.progC.tail, cp := .idle, lock := lock' } }
+
+/-- Racy window: a thread woken by the END of the other thread's transaction runs concurrently with it, so its
+    call can be recorded before the other thread's `ret` line.  If thread `t` cannot take its step (or needs the
+    reserved lock) and the other thread is at the commit stage of its transaction, that transaction ends first:
+    its commit step is taken - or, if the recorded call of the other thread FAILED, its rollback - and remembered
+    (`preP`/`preC`, `preFaultP`/`preFaultC`) for the other thread's own `ret` line. -/
+def finishOther (sim : ConcSim) (t : Bool) : ConcSim :=
+  if t then
+    -- the other thread is the producer
+    if sim.s.pp != .pending || sim.preP.isSome || sim.preFaultP then sim else
+    match sim.callsP.head? with
+    | none => sim
+    | some call =>
+      if call.fault then { producerFault sim call with preFaultP := true }
+      else
+        match sim.s.step sim.cfg false with
+        | some s' => if s'.bad then sim else { sim with s := s', preP := some (s'.outP.getLastD .ok) }
+        | none => sim
+  else
+    if !(match sim.s.cp with | .pending _ => true | _ => false) || sim.preC.isSome || sim.preFaultC then sim else
+    match sim.callsC.head? with
+    | none => sim
+    | some call =>
+      if call.fault then { consumerFault sim with preFaultC := true }
+      else
+        match sim.s.step sim.cfg true with
+        | some s' => if s'.bad then sim else { sim with s := s', preC := some (s'.outC.getLastD .ok) }
+        | none => sim
+
 /-- a `ret` line: the step that completes the call -/
 def concRet (sim : ConcSim) (l : ConcLine) : ConcRes :=
   let calls := if l.tid then sim.callsC else sim.callsP
@@ -191,23 +246,18 @@ def concRet (sim : ConcSim) (l : ConcLine) : ConcRes :=
     if call.fault then
       -- a transaction that was rolled back (out of space): outside the step relation
       if l.tid then
-        -- failed ACK: nothing changed
-        .ok { sim with s := { sim.s with progC := sim.s.progC.tail, cp := .idle }, callsC := restCalls }
+        if sim.preFaultC then .ok { sim with callsC := restCalls, preFaultC := false } else
+        .ok { consumerFault sim with callsC := restCalls }
       else
-        let S := sim.cfg.S
-        if sim.s.pp != .idle then .mismatch "a failed producer call after its transaction reached the commit" else
-        if sim.s.lock.reserved then .mismatch "a producer transaction started although the reserved lock is held" else
-        let o := pqOutcome call.res
-        match call.op with
-        | .next =>
-          let s1 := sim.s.q.w.nextCore S
-          .ok { sim with s := { sim.s with q := { sim.s.q with w := failFlush o s1 },
-                                           a := { sim.s.a with events := sim.s.a.events ++ [sim.s.a.cur], cur := [] },
-                                           progP := sim.s.progP.tail }, callsP := restCalls }
-        | _ => .ok { sim with s := { sim.s with q := { sim.s.q with w := failFlush o sim.s.q.w }, progP := sim.s.progP.tail },
-                              callsP := restCalls }
+        if sim.preFaultP then .ok { sim with callsP := restCalls, preFaultP := false } else
+        -- the producer was blocked at `BeginWrite` by the ACK's write transaction and, woken by its end, failed
+        -- before the `ret ack` line was recorded
+        let sim := if sim.s.pp == .idle && sim.s.lock.reserved && sim.wokenP then finishOther sim false else sim
+        if sim.s.pp == .idle && sim.s.lock.reserved then
+          .mismatch "a producer transaction started although the reserved lock is held" else
+        .ok { producerFault sim call with callsP := restCalls }
     else
-      -- the commit of this call was already taken (see `preP`)
+      -- the commit of this call was already taken (see `finishOther`)
       match (if l.tid then sim.preC else sim.preP) with
       | some o =>
         if qoutStr o != call.res then .mismatch s!"expected={call.res} got={qoutStr o}"
@@ -215,18 +265,10 @@ def concRet (sim : ConcSim) (l : ConcLine) : ConcRes :=
                             callsC := if l.tid then restCalls else sim.callsC,
                             preP := if l.tid then sim.preP else none, preC := if l.tid then none else sim.preC }
       | none =>
-      -- a woken thread's call may be recorded before the `ret` of the commit that woke it: take that commit first
       let sim : ConcSim :=
         match sim.s.step sim.cfg l.tid with
         | some _ => sim
-        | none =>
-          let otherCommitting := if l.tid then sim.s.pp == .pending else (match sim.s.cp with | .pending _ => true | _ => false)
-          if !otherCommitting then sim else
-          match sim.s.step sim.cfg (!l.tid) with
-          | none => sim
-          | some s' =>
-            let o := (if l.tid then s'.outP else s'.outC).getLastD .ok
-            if l.tid then { sim with s := s', preP := some o } else { sim with s := s', preC := some o }
+        | none => finishOther sim l.tid
       let before := if l.tid then sim.s.outC.length else sim.s.outP.length
       match sim.s.step sim.cfg l.tid with
       | none => .mismatch s!"the completing step is not enabled in the model (lock {lockStr' sim.s.lock})"
@@ -327,7 +369,7 @@ def concProgram (seed : Nat) (lines : List String) : Nat × Option String × Opt
       | .skip w => (n, none, some s!"line {n + 1} `{l.ev}`: {w}")
       | .mismatch m => (n + 1, some s!"line {n + 1} `step {if l.tid then 1 else 0} {l.ev}`: {m}", none)
       | .ok sim' =>
-        if l.lock.startsWith "shared=" && !(sim'.wokenP || sim'.wokenC || sim'.preP.isSome || sim'.preC.isSome) &&
+        if l.lock.startsWith "shared=" && !(sim'.wokenP || sim'.wokenC || sim'.preP.isSome || sim'.preC.isSome || sim'.preFaultP || sim'.preFaultC) &&
             lockStr' sim'.s.lock != l.lock then
           (n + 1, some s!"line {n + 1} `step {if l.tid then 1 else 0} {l.ev}`: lock expected={l.lock} got={lockStr' sim'.s.lock}", none)
         else go sim' rest (n + 1)
